@@ -1485,3 +1485,23 @@ def expand_new_helpers(ctx, t):
             if v != t:
                 return fold_sub(v)
     return t
+
+
+class Settle:
+    """A rule that compares spellings runs first; afterwards the same obligation is decided on finite models (sa/meval.py).  If the
+    models all agree with the statement, what the spelling-based rule reported since the snapshot is withdrawn; if a model
+    disagrees, that is reported (whatever the spelling-based rule said); if the models cannot be evaluated, nothing changes."""
+
+    def __init__(self, ctx):
+        self.ctx = ctx
+        self.snap = (len(ctx.findings), len(ctx.undecided), {k: len(v) for k, v in ctx.instances.items()})
+
+    def clean(self) -> bool:
+        return len(self.ctx.findings) == self.snap[0] and len(self.ctx.undecided) == self.snap[1]
+
+    def withdraw(self):
+        ctx = self.ctx
+        del ctx.findings[self.snap[0]:]
+        del ctx.undecided[self.snap[1]:]
+        for k in list(ctx.instances):
+            del ctx.instances[k][self.snap[2].get(k, 0):]
